@@ -5,6 +5,7 @@ import Pycoin.Proofs.SignWrap
 import Pycoin.Proofs.SignState
 import Pycoin.Proofs.SignParse
 import Pycoin.Proofs.SignExisting
+import Pycoin.Proofs.SignWho
 import Pycoin.Proofs.SignLink
 import Pycoin.Proofs.SignOrder
 import Pycoin.Proofs.SignKeychain
@@ -38,6 +39,7 @@ C05 — property theorems about the signer model (`Model/Sign.lean`).
   `min m (distinct listed keys supplied)` signatures and `m −` that many placeholders, is accepted exactly when m distinct
   listed keys were supplied, independently of the order of the passes (under two explicit unforgeability-style hypotheses);
   `C05_partial_order_independent_partial`, `C05_partial_placeholders`, `C05_placeholder_invalid_partial`: the combinatorial core;
+* `C05_who_signed_exact_partial`: the model of `who_signed` reports exactly the keys that signed; `C05_next_pass_reads_solution`;
 * `C05_sign_frame`, `C05_sign_frame_empty`: nothing but script and witness of the chosen, not yet valid inputs changes.
 -/
 namespace Pycoin.Sign
@@ -1383,6 +1385,45 @@ theorem C05_next_pass_reads_solution (w : Wrap) (ms : Bytes) (items : List Bytes
     exact existingScript_witness _ _ (by simp [Wrap.wit, Wrap.witness])
   | p2shP2wsh =>
     exact existingScript_witness _ _ (by simp [Wrap.wit, Wrap.witness])
+
+/-- **`who_signed` reports exactly the keys that signed** (`_partial`: `hcross`, `hunf` as in `C05_partial_passes_partial`).  For an
+m-of-n input in the state `sgn` the model's passes leave (`stateSolved`: dummy, placeholders, signatures by key index), the
+model of `public_pairs_signed` (`Model/WhoSigned.lean`) run on what the `OP_CHECKMULTISIG` hook finds — the keys, and the top `m`
+stack items — returns the public keys of `sgn`, each exactly once, by key index, with the hash type they signed with; a
+placeholder contributes nothing (on fork-id coins its hash type 1 has no digest at all: `sigHashes` maps that to "matches
+nothing", which is what the repaired `_handle_checkmultisig` does).  `hdig`: the digest attached to a signature blob (script code
+with that one blob deleted, legacy) is the digest that was signed — as `hcode` above.  Recognising the template and unwrapping
+P2SH / P2WSH (`sigOpBlobs`) is tied to the implementation by the `c05_who_signed` correspondence. -/
+theorem C05_who_signed_exact_partial (m : Nat) (keys : List Bytes) (d x y : Nat → Int) (comp : Nat → Bool) (sg : Nat → Bytes)
+    (z : Int) (ht : Nat) (sgn : Nat → Bool) (dig : Bytes → Nat → Option Int)
+    (HK : HonestKeys keys.reverse d x y comp) (hsg : SignsWith keys.reverse d z ht sg)
+    (hcross : NoCross keys.reverse d x y z) (hunf : PlaceholderUnverifiable) (hht : ht ≤ 255)
+    (hc : card keys.reverse.length sgn ≤ m)
+    (hdig : ∀ i, i < keys.reverse.length → dig (sg i) ht = some z) :
+    whoSignedBlobs secp256k1Crypto dig keys.reverse
+        ((stateSolved keys.reverse.length m sg Gen.Sign.defaultPlaceholder sgn).reverse.take m) =
+      .ok ((signedList keys.reverse.length sgn).map (fun i => (some (x i, y i), ht))) := by
+  rw [stateSolved_take _ m sg _ sgn hc]
+  have F := keyFacts_of (dig := fun t => if t = ht then some z else none) HK hsg hht (by simp) hcross
+  apply whoSigned_state secp256k1Crypto keys.reverse (fun i => some (x i, y i)) sg _ m sgn dig z ht
+  · intro j kj hkj
+    exact (own_facts HK hsg hht hkj).2.1
+  · intro i hi
+    obtain ⟨k, hk⟩ := getElem?_of_lt hi
+    obtain ⟨hcan, _⟩ := own_facts HK hsg hht hk
+    obtain ⟨h9, _⟩ := valid_sig_length hcan.1
+    obtain ⟨r, s, hp, hall⟩ := F.sigs i hi
+    refine ⟨by intro h0; rw [h0] at h9; simp at h9, r, s, hp, ?_⟩
+    intro j hj
+    obtain ⟨kj, hkj⟩ := getElem?_of_lt hj
+    obtain ⟨Q, hQ, hv⟩ := hall j kj hkj
+    rw [(own_facts HK hsg hht hkj).2.1] at hQ
+    cases hQ
+    exact hv
+  · exact hdig
+  · refine ⟨by intro h0; have := placeholder_lax.2.2; rw [h0] at this; simp at this, _, _, _, placeholder_parses, ?_⟩
+    intro Q' z'
+    exact hunf Q' z'
 
 /-! ### the hypotheses are satisfiable: a 2-of-3 input evaluated on the model (tests by evaluation, not theorems) -/
 
